@@ -112,7 +112,7 @@ func loadWorld(repo string, patterns []string) (*World, error) {
 							g.Sort = "Bool"
 							g.Init = "false"
 						}
-						if fs[1] == "field" && strings.Count(g.Name, ".") == 1 {
+						if fs[1] == "field" && strings.Count(g.Name, ".") == 1 && !strings.HasPrefix(g.Name, "*.") {
 							g.Name = cf.p.Types.Name() + "." + g.Name
 						}
 						w.ghosts[g.Name] = g
